@@ -346,3 +346,25 @@ Theorem C08_order_independent :
     = nth_energy (ModuleModel.run_cfg Rops fixed efix it0 tsfs cfgs' evs) j.
 Proof. exact @order_independent. Qed.
 Print Assumptions C08_order_independent.
+
+(* ---- round 5 ------------------------------------------------------------------------------------------ *)
+
+(* apply_force is no longer a configuration constant of the model: the script event ESetApply (`cv bias <name> set
+   apply_force on|off`) references / dereferences f_cv_apply_force of the variables while the bias is active, and every
+   theorem above holds for histories containing it (C08_inactive_contribute_nothing reads b_apply of the bias AT THAT STEP,
+   so "a bias not applying for a few steps" contributes nothing exactly during those steps). *)
+Example C08_apply_switch_example :
+  map wview (run_kinds Zops true true 0 [1%Z] [wharm 1]
+               [EStep (wx 1); ESetApply 0 false; EStep (wx 2); ESetApply 0 true; EStep (wx 3)])
+  = [(0, [true], [true], 0, -1); (1, [true], [true], 0, 0); (2, [true], [true], 0, -3)]%Z.
+Proof. exact witness_apply_switch. Qed.
+
+(* Extended-Lagrangian variables over HISTORIES (C17's module trace [mtrace], with sleeping steps): feeding every step with
+   the pipeline's routing of that step's bias list, at every awake step without a factor error the atoms get
+   factor_v * spring + the bypassing biases and the extended coordinate the ordinary biases / factor_v; a sleeping step
+   is C17's [sleep] whatever the biases. *)
+Theorem C08_extended_routing_history :
+  forall (BS : Type) (c : @config R) (p : @params R) (it0 : Z) (i : nat) (h : list (@hist_elem BS)) (s : @state R),
+    routed_ok c p it0 i s h.
+Proof. exact @extended_routing_history. Qed.
+Print Assumptions C08_extended_routing_history.
